@@ -1,4 +1,6 @@
 mod file_dependency_relation;
+#[cfg(feature = "verif")]
+mod verif;
 
 use hashbrown::{HashMap, HashSet};
 
